@@ -141,3 +141,7 @@ package mysql
 //@ func (*mysql.Cluster).UpdateHostsInfo
 //@   requires ok [inv]: clusterOK(c)
 //@   ensures C20.registry_inv [C20,C10]: registryInv(c)
+
+//@ func (*mysql.Cluster).HANodeHosts
+//@   ensures C20.ha_registered [C20]: forall k string :: contains(result, k) <==> has(c.haNodes, k)
+//@   loop 1 invariant seen: forall k string :: contains(hosts, k) <==> visited[k]
